@@ -27,6 +27,8 @@ type ConcreteModel struct {
 	Job       string   `json:"job,omitempty"`
 	Pkg       string   `json:"pkg,omitempty"`
 	Files     []string `json:"files,omitempty"`
+	// native-only entry that confirms a race@ counterexample on a -race build when the model alone does not
+	RaceConfirm string `json:"race_confirm,omitempty"`
 }
 
 func concretize(j *Job, raw map[string]string) (*ConcreteModel, error) {
@@ -402,6 +404,9 @@ func runReplayCmd(path string) int {
 			if res.Race == "" {
 				m2 := m
 				m2.Entry = "VerifRaceStress"
+				if m.RaceConfirm != "" {
+					m2.Entry = m.RaceConfirm
+				}
 				res = rp.runModelBin(&m2, bin)
 			}
 		}
